@@ -634,8 +634,11 @@ func (s *MemoryStore) Dequeue(req DequeueRequest) (DequeueResponse, error) {
 			now = s.nowFn()
 		}
 
-		s.requeueExpiredLeasesLocked(now)
+		// Prune before releasing expired leases, as the SQLite backend does: a
+		// message whose lease has just expired is offered again once more
+		// instead of being pruned while it still counted as leased.
 		s.maybePruneLocked(now)
+		s.requeueExpiredLeasesLocked(now)
 
 		var out []Envelope
 		for _, id := range s.order {
